@@ -461,6 +461,7 @@ class BoundFunction(LazyEval):
         """
         LazyEval.__init__(self, [])
         self.owner = owner
+        self._is_names_updated = False  # read before the first refresh
 
         # Must not update owner's namespace to avoid circular updates.
         self.observe(owner._namespace)
